@@ -608,6 +608,37 @@ class Glob:
             self.keep.append(e)
         return r
 
+SLOWQ = float(os.environ.get("VERIF_SLOWQ", 0))
+_SLOWN = [0]
+
+
+def _slow_dump(sol, dt, r, stack):
+    _SLOWN[0] += 1
+    p = os.path.join(os.environ.get("VERIF_WORK", "/verif/.work"), "dbg", f"slowq_{os.getpid()}_{_SLOWN[0]}.smt2")
+    os.makedirs(os.path.dirname(p), exist_ok=True)
+    open(p, "w").write(f"; {dt:.1f}s {r} {stack}\n" + sol.to_smt2())
+    sys.stderr.write(f"SLOW QUERY {dt:.1f}s {r} -> {p} {stack}\n")
+
+
+INC_TIMEOUT_MS = int(os.environ.get("VERIF_INC_TIMEOUT_MS", 1500))
+
+
+def solve(sol, glob=None):
+    """check() on a solver that is in incremental mode (push/pop): z3's incremental core has no bit-vector preprocessing and
+    can take minutes on arithmetic that the default tactic decides at once.  The core gets a short timeout; on `unknown`
+    the same assertions are decided by a fresh, non-incremental solver (full preprocessing, no timeout).
+    returns (result, model or None)"""
+    r = sol.check()
+    if r == z3.unknown:
+        s2 = z3.Solver()
+        s2.add(sol.assertions())
+        r = s2.check()
+        if glob is not None:
+            glob.fallbacks = getattr(glob, "fallbacks", 0) + 1
+        return r, (s2.model() if r == z3.sat else None)
+    return r, (sol.model() if r == z3.sat else None)
+
+
 class Exec:
     def __init__(self, prog, models, max_steps=300000):
         self.glob = Glob()
@@ -616,6 +647,7 @@ class Exec:
         self.max_steps = max_steps
         self.hooks = {}
         self.inc = z3.Solver()
+        self.inc.set("timeout", INC_TIMEOUT_MS)
         self.inc_stack = []      # constraints asserted in self.inc, one scope each (kept alive here)
         self.inc_pos = 0
         self.use_inc = True
@@ -687,6 +719,7 @@ class Exec:
             sol = self.inc
         else:
             sol = z3.Solver()
+            sol.set("timeout", INC_TIMEOUT_MS)
             for c in rel:
                 sol.add(c)
         remaining = list(range(len(options)))
@@ -696,14 +729,15 @@ class Exec:
             sol.add(z3.Or([options[k][1] for k in remaining]))
             self.solver_calls += 1
             _t = time.time()
-            r = sol.check()
+            r, m = solve(sol, G)
             G.solver_time += time.time() - _t; G.queries += 1
+            if SLOWQ and time.time() - _t > SLOWQ:
+                _slow_dump(sol, time.time() - _t, r, self.stack[-3:])
             if r == z3.unsat:
                 sol.pop(); break
             if r != z3.sat:
                 sol.pop()
                 raise Unsupported("solver unknown")
-            m = sol.model()
             hitk = None
             for k in remaining:
                 if z3.is_true(m.eval(options[k][1], model_completion=True)):
@@ -770,10 +804,11 @@ class Exec:
             sol.push()
             sol.add(extra)
             _t = time.time()
-            r = sol.check()
+            r, m = solve(sol, self.glob)
             self.glob.solver_time += time.time() - _t; self.glob.queries += 1
+            if SLOWQ and time.time() - _t > SLOWQ:
+                _slow_dump(sol, time.time() - _t, r, self.stack[-3:])
             self.solver_calls += 1
-            m = sol.model() if r == z3.sat else None
             sol.pop()
             if r == z3.unknown:
                 raise Unsupported("solver unknown")
@@ -1172,6 +1207,24 @@ class Exec:
             return float(re.sub(r"f(32|64)$", "", t))
         # named const / promoted / fn item / unit variant
         f = self.prog.funcs.get(t)
+        if f is None and "promoted[" in t:
+            # the use names the impl's type (`symbols::SymbolTable::gates::{closure#0}::promoted[0]`), the definition its
+            # location (`symbols::<impl at ..>::gates::{closure#0}::promoted[0]`)
+            idx = self.prog.__dict__.setdefault("_promoted_idx", None)
+            if idx is None:
+                idx = {}
+                for raw, fn in self.prog.funcs.items():
+                    if "promoted[" in raw and "<impl at" in raw:
+                        idx.setdefault(re.sub(r"<impl at [^>]*>::", "", raw), []).append(fn)
+                self.prog._promoted_idx = idx
+            segs = t.split("::")
+            cands = []
+            for i in range(len(segs)):
+                cands += idx.get("::".join(segs[:i] + segs[i + 1:]), [])
+            same = [c for c in cands if getattr(c, "crate", None) == self.cur_crate()] or cands
+            if len(same) == 1:
+                f = same[0]
+                t = f.rawname
         if f is not None:
             if f.kind in ("const", "static", "constval") or "promoted[" in t:
                 key = ("constcache", t)
